@@ -41,7 +41,12 @@ func runQuery(t *testing.T, gs []GraphData, q *Query, k ExecKnobs) (*tableRows, 
 	if er.res.Hazard != "" {
 		return nil, er, infra("scheduler hazard: %s", er.res.Hazard)
 	}
-	if er.panicV != "" || len(er.res.Panics) > 0 || er.res.StepCap || !er.done || er.res.Deadlock {
+	if er.res.StepCap {
+		// a legitimately large cross product exhausted the step budget: not a hang (a hang is "no runnable
+		// task"); the case is inconclusive
+		return nil, er, &Outcome{Verdict: "ok", Detail: "step budget exhausted", Stats: map[string]int64{"inconclusive": 1, "step_budget_exhausted": 1}}
+	}
+	if er.panicV != "" || len(er.res.Panics) > 0 || !er.done || er.res.Deadlock {
 		msg := er.panicV
 		if len(er.res.Panics) > 0 {
 			msg = er.res.Panics[0]
@@ -331,6 +336,9 @@ func (h *orderHarness) Run(t *testing.T, ci any) *Outcome {
 	r0, er, bad := runQuery(t, c.Graphs, &base, c.Knobs)
 	o.Execs = 1
 	if bad != nil {
+		if bad.Verdict == "ok" {
+			return bad
+		}
 		bad.Class = "C12:" + bad.Class
 		return bad
 	}
@@ -352,6 +360,9 @@ func (h *orderHarness) Run(t *testing.T, ci any) *Outcome {
 	r1, er1, bad := runQuery(t, c.Graphs, &ordered, knobsVariant(c.Knobs, kr))
 	o.Execs++
 	if bad != nil {
+		if bad.Verdict == "ok" {
+			return bad
+		}
 		bad.Class = "C12:" + bad.Class
 		return bad
 	}
@@ -388,6 +399,9 @@ func (h *orderHarness) Run(t *testing.T, ci any) *Outcome {
 		r2, er2, bad := runQuery(t, c.Graphs, &ql, knobsVariant(c.Knobs, kr))
 		o.Execs++
 		if bad != nil {
+			if bad.Verdict == "ok" {
+				return bad
+			}
 			bad.Class = "C12:" + bad.Class
 			return bad
 		}
@@ -429,6 +443,9 @@ func (h *orderHarness) Run(t *testing.T, ci any) *Outcome {
 		r3, er3, bad := runQuery(t, c.Graphs, &q3, knobsVariant(c.Knobs, kr))
 		o.Execs++
 		if bad != nil {
+			if bad.Verdict == "ok" {
+				return bad
+			}
 			bad.Class = "C12:" + bad.Class
 			return bad
 		}
@@ -450,6 +467,9 @@ func (h *orderHarness) Run(t *testing.T, ci any) *Outcome {
 		_, erb, bad := runQuery(t, c.Graphs, &qb, c.Knobs)
 		o.Execs++
 		if bad != nil {
+			if bad.Verdict == "ok" {
+				return bad
+			}
 			bad.Class = "C12:" + bad.Class
 			return bad
 		}
@@ -592,6 +612,9 @@ func (h *invarHarness) Run(t *testing.T, ci any) *Outcome {
 	base, er, bad := runQuery(t, one, &q, c.Knobs)
 	o.Execs = 1
 	if bad != nil {
+		if bad.Verdict == "ok" {
+			return bad
+		}
 		bad.Class = "C14:" + bad.Class
 		return bad
 	}
@@ -601,7 +624,18 @@ func (h *invarHarness) Run(t *testing.T, ci any) *Outcome {
 	}
 	o.stat("steps", er.res.Steps)
 	dets = append(dets, detHash(er.res.Log, er.tapeRec, fmt.Sprint(base.keys)))
+	// the sequence is determined only when every ORDER BY key column holds values of one kind
+	// (C12 specifies the order for such columns only)
 	total := len(c.Order) > 0
+	for _, ok := range c.Order {
+		kinds := map[string]bool{}
+		for _, r := range base.rows {
+			kinds[kindOf(r[ok.B])] = true
+		}
+		if len(kinds) > 1 {
+			total = false
+		}
+	}
 	mk := func(cls, f string, a ...any) *Outcome {
 		v := violation("C14:"+cls, f, a...)
 		v.Detail = fmt.Sprintf("query: %s\ndata: %q\n%s", q.render(), specStrings(c.U), v.Detail)
@@ -622,6 +656,9 @@ func (h *invarHarness) Run(t *testing.T, ci any) *Outcome {
 		got, erv, bad := runQuery(t, gs, vq, k)
 		o.Execs++
 		if bad != nil {
+			if bad.Verdict == "ok" {
+				return bad
+			}
 			bad.Class = "C14:" + bad.Class
 			return bad
 		}
@@ -698,6 +735,9 @@ func (h *invarHarness) Run(t *testing.T, ci any) *Outcome {
 		got, erv, bad := runQuery(t, more, &q, knobsVariant(c.Knobs, vr))
 		o.Execs++
 		if bad != nil {
+			if bad.Verdict == "ok" {
+				return bad
+			}
 			bad.Class = "C14:" + bad.Class
 			return bad
 		}
